@@ -61,6 +61,21 @@ Forced(c, i) ==
     [] nd.k \in {"t", "nil", "ctx"} -> FALSE
     [] OTHER -> \E j \in 1..Len(nd.c) : Forced(c, nd.c[j])
 
+RECURSIVE FirstForced(_, _), FirstOf(_, _, _)
+\* the kind ("hl" / "ab" / "none") of the FIRST forcing node on the flat path, in document order: the known
+\* finding is that the fitting predicates answer "fits" when they MEET A HARDLINE in flat mode; an always_break
+\* met first makes them answer "does not fit", so a group laid out flat over it is a different defect
+FirstForced(c, i) ==
+  LET nd == Nd(c, i) IN
+  CASE nd.k = "hl" -> "hl"
+    [] nd.k = "ab" -> "ab"
+    [] nd.k = "fc" -> FirstForced(c, nd.c[2])
+    [] nd.k \in {"t", "nil", "ctx"} -> "none"
+    [] OTHER -> FirstOf(c, nd.c, 1)
+FirstOf(c, kids, j) ==
+  IF j > Len(kids) THEN "none"
+  ELSE LET f == FirstForced(c, kids[j]) IN IF f # "none" THEN f ELSE FirstOf(c, kids, j + 1)
+
 RECURSIVE HasText(_, _)
 HasText(c, i) ==
   LET nd == Nd(c, i) IN
@@ -147,6 +162,9 @@ VARIABLES cs, src, st, col, pos, used
 vars == <<cs, src, st, col, pos, used>>
 
 HLF == "hardline-in-flat-group"
+ABF == "always-break-in-flat-group"
+\* the relaxation a flat group / fill item over forced content i stands for
+FlatOverForced(i) == IF FirstForced(cs, i) = "hl" THEN HLF ELSE ABF
 
 O == IF src = "impl" THEN ImplStreams[cs] ELSE Cases[cs].obs
 W == Cases[cs].W
@@ -218,8 +236,11 @@ Step ==
               /\ st' = Append(Rest, <<ind, m, nd.c[b], 1>>)
               /\ UNCHANGED <<col, pos, used>>
        [] nd.k = "ab" ->                                                 \* C04.forced
-            /\ m = BREAK \/ (~Strict /\ HLF \in used)
-            /\ st' = Rest \o kids(BREAK, ind) /\ UNCHANGED <<col, pos, used>>
+            /\ m = BREAK \/ ~Strict
+            \* (relaxed only) in flat mode: a follow-on of the known finding once a hardline was passed in flat
+            \* mode, otherwise a relaxation of its own (which is not a known finding)
+            /\ used' = IF m = BREAK \/ HLF \in used THEN used ELSE used \cup {ABF}
+            /\ st' = Rest \o kids(BREAK, ind) /\ UNCHANGED <<col, pos>>
        [] nd.k = "grp" ->
             IF ~HasChoice(cs, nd.c[1])
             THEN \* both renderings coincide: explained either way, no obligation
@@ -238,7 +259,7 @@ Step ==
                          Append(Rest, <<ind, FLAT, nd.c[1], 1>>))        \* C06.break
               /\ st' = Rest \o kids(mm, ind) /\ UNCHANGED <<col, pos>>
               \* (relaxed only) a group with a forced break on its flat path laid out flat
-              /\ used' = IF mm = FLAT /\ Forced(cs, nd.c[1]) THEN used \cup {HLF} ELSE used
+              /\ used' = IF mm = FLAT /\ Forced(cs, nd.c[1]) THEN used \cup {FlatOverForced(nd.c[1])} ELSE used
        [] nd.k = "fill" ->
             \* one item at a time (aux = index of the next item); every content
             \* item and separator is flat or broken on its own
@@ -249,7 +270,7 @@ Step ==
                    /\ (mm = FLAT /\ Strict) => ~Forced(cs, nd.c[j])
                    /\ (mm = BREAK) => HasChoice(cs, nd.c[j]) \/ Forced(cs, nd.c[j])
                    /\ st' = Rest \o << <<ind, m, id, j + 1>>, <<ind, mm, nd.c[j], 1>> >>
-                   /\ used' = IF mm = FLAT /\ Forced(cs, nd.c[j]) THEN used \cup {HLF} ELSE used
+                   /\ used' = IF mm = FLAT /\ Forced(cs, nd.c[j]) THEN used \cup {FlatOverForced(nd.c[j])} ELSE used
                    /\ UNCHANGED <<col, pos>>
 
 Accepting == Len(st) = 0 /\ pos = Len(O) + 1
